@@ -540,7 +540,10 @@ func (m *Machine) prepareCall(fr *frame, call *ssa.CallCommon) (fn Value, args [
 		if recv.t == nil {
 			m.runtimePanic("nil-deref", "invalid memory address or nil pointer dereference (method call on nil interface)")
 		}
-		f := m.prog.LookupMethod(recv.t, call.Method.Pkg(), call.Method.Name())
+		var f *ssa.Function
+		if sel := m.prog.MethodSets.MethodSet(recv.t).Lookup(call.Method.Pkg(), call.Method.Name()); sel != nil {
+			f = m.prog.MethodValue(sel)
+		}
 		if f == nil {
 			if h := m.synthMethod(recv, call.Method.Name()); h != nil {
 				fn = h
